@@ -37,7 +37,11 @@ def tree_runs(ctx, fails):
     """run; run; --check on a tree, serial and parallel: the second run reports 0 modified and touches nothing."""
     res = []
     # a negative $SOURCE_DATE_EPOCH is ignored: by a serial run, by the controller and by every worker alike
-    for first, second, epoch in (([], [], samples.EPOCH), (["-j3"], [], samples.EPOCH), ([], ["-j3"], samples.EPOCH), (["-j2"], ["-j4"], samples.EPOCH), ([], ["-j2"], -86400)):
+    ALLSEL = "ar,jar,javadoc,gzip,pyc,pyc-zero-mtime,zip"      # the opt-in handler too: the byte-compiled file is then matched by two handlers
+    for first, second, epoch, sel in (([], [], samples.EPOCH, None), (["-j3"], [], samples.EPOCH, None), ([], ["-j3"], samples.EPOCH, None), (["-j2"], ["-j4"], samples.EPOCH, None),
+                                      ([], ["-j2"], -86400, None), (["-j2"], [], samples.EPOCH, ALLSEL), ([], ["-j2"], samples.EPOCH, ALLSEL)):
+        selarg = ["--handler", sel] if sel else []
+        first, second = first + selarg, second + selarg
         t = fh.Tree()
         try:
             for n, (data, hs) in samples.per_handler().items():
@@ -55,7 +59,7 @@ def tree_runs(ctx, fails):
             rc2, out2 = fh.run_cli(second + [t.path("t")], epoch=epoch, timeout=120)
             s2 = fh.parse_summary(out2)
             after = fh.snapshot(t.root, with_dir_mtime=False)
-            rc3, out3 = fh.run_cli(["--check", "--handler=-gzip" if epoch >= 0 else "--handler=-gzip,-zip,-jar"] + second + [t.path("t")], epoch=epoch, timeout=120)   # zip and jar cannot be asked for by name without an epoch   # bad.gz is unsupported: leave gzip out of the verdict
+            rc3, out3 = fh.run_cli(["--check"] + [a for a in second if a.startswith("-j")] + ["--handler=" + ALLSEL.replace("gzip,", "") if sel else ("--handler=-gzip" if epoch >= 0 else "--handler=-gzip,-zip,-jar")] + [t.path("t")], epoch=epoch, timeout=120)   # zip and jar cannot be asked for by name without an epoch   # bad.gz is unsupported: leave gzip out of the verdict
             s3 = fh.parse_summary(out3)
             label = "run %s; run %s; --check%s" % (" ".join(first) or "serial", " ".join(second) or "serial", "" if epoch == samples.EPOCH else " (SOURCE_DATE_EPOCH=%d)" % epoch)
             res.append({"case": label, "first": s1, "second": s2, "check_exit": rc3})
